@@ -25,6 +25,7 @@ pub struct OracleState {
     pub c04: crate::c04::State,
     pub c14: crate::c14::State,
     pub c11: crate::c11::State,
+    pub c19: crate::c19::State,
 }
 
 /// Task names that recur for ever at short intervals; the pump does not
@@ -157,6 +158,17 @@ pub fn after_task(r: &mut Runner, _inst: usize) {
         let task = hooks::state().last_task.clone();
         crate::c11::observe(r, &format!("after task {task}"));
     }
+    if r.oracles.c19 {
+        let task = hooks::state().last_task.clone();
+        // Revocation requests are exchanges with the parent too; what the
+        // status shows afterwards is theirs.
+        if task.contains("resource_class_removed_")
+            || task.contains("unexpected_key_")
+        {
+            r.ext.c19.parent_outcome.clear();
+        }
+        crate::c19::observe(r, &format!("after task {task}"));
+    }
 }
 
 /// Instant invariants, evaluated after every API operation.
@@ -175,6 +187,9 @@ pub fn after_op(r: &mut Runner) {
     }
     if r.oracles.c11 {
         crate::c11::observe(r, "after the operation");
+    }
+    if r.oracles.c19 {
+        crate::c19::observe(r, "after the operation");
     }
 }
 
